@@ -14,7 +14,7 @@
     default_cfg_include_attrs i18n_directives_sort_first contexted_table
     lookups_subset_extract_partial choose_identity msg_lookup_extracted identity_transparent_msg
     choose_lookup_extracted choose_outer_text_not_looked_up msg_lookup_extracted_elem
-    code_calls_extracted identity_transparent_msg_sub
+    code_calls_extracted identity_transparent_msg_sub choose_extract_succeeds
 -/
 import Genshi.Lemmas.I18nTree
 import Genshi.Lemmas.I18nStarts
@@ -296,6 +296,25 @@ theorem choose_lookup_extracted (cfg : Cfg) (params : List Str) (st : Bool) (cs 
           (.start t a :: ((pre ++ .sub [.singular] (.start ts as :: (cS ++ [.end_ ts])) ::
             (mid ++ .sub [.plural] (.start tp ap :: (cP ++ [.end_ tp])) :: post)) ++ [.end_ t'])) :=
   chooseCall_lookup_extracted cfg params st cs xs pl t t' ts tp a as ap pre mid post cS cP hpre hmid hpost ms hex
+
+/-- … and extraction does return: `ChooseDirective.extract` succeeds on such an element whenever
+    the buffer of each branch content can be built on its own (as many parameters as
+    expressions …) and leaves the buffer's stack non-empty, which balanced content does.  With
+    `choose_lookup_extracted`: the pair of ids the directive looks up is extracted. -/
+theorem choose_extract_succeeds (cfg : Cfg) (params : List Str) (st : Bool) (cs xs : List Str)
+    (t t' ts tp : QName) (a as ap : TAttrs) (pre mid post cS cP : List TEvent)
+    (hpre : ∀ e ∈ pre, outerEv e = true) (hmid : ∀ e ∈ mid, outerEv e = true) (hpost : ∀ e ∈ post, outerEv e = true)
+    (C D : MB) (hC : mbAppendList (MB.new params) cS = .ok C) (hD : mbAppendList (MB.new params) cP = .ok D)
+    (hCs : C.stack ≠ []) (hDs : D.stack ≠ []) :
+    ∃ ms, chooseExtract cfg params st cs xs
+      (.start t a :: ((pre ++ .sub [.singular] (.start ts as :: (cS ++ [.end_ ts])) ::
+        (mid ++ .sub [.plural] (.start tp ap :: (cP ++ [.end_ tp])) :: post)) ++ [.end_ t'])) = .ok ms :=
+  chooseExtract_ok cfg params st cs xs t t' ts ts tp tp a as ap pre mid post cS cP hpre hmid hpost C D hC hD hCs hDs
+
+example :
+    (mbAppendList (MB.new [['n']]) [.text ['O','n','e',' '], .expr 0 [], .text [' '],
+        .sub [.other ['i','f']] [.start ⟨[], ['b']⟩ [], .text ['c','o','i','n'], .end_ ⟨[], ['b']⟩]]).map (fun b => b.stack) =
+      .ok [0] := by decide +kernel
 
 /-- `<div i18n:choose="n; n"> <p i18n:singular="">One ${n} <b py:if="c">coin</b></p> <!-- c -->
     <p i18n:plural="">${n} coins</p> </div>`: extraction succeeds, with the two ids -/
